@@ -5,13 +5,13 @@
 // add_dirent are the code under observation.
 //
 // stdin protocol (one command per line, one answer line per command):
-//   new passthrough root=<dir> [no_opendir=1] [no_open=1] [seal_size=1] [no_readdir=1] [writeback=1]
+//   new passthrough root=<dir> [no_opendir=1] [no_open=1 cache_always=1] [seal_size=1] [no_readdir=1] [writeback=1]
 //   new vfs [no_opendir=1] [no_open=1] [seal_size=1] mount=<vfs path>=<host dir> mount=...
 //   msg <reply buffer size> <hex request>      -> "reply <hex bytes written to the device>|-" "ret=<..>"
 //   quit
 use fuse_backend_rs::api::server::Server;
 use fuse_backend_rs::api::{Vfs, VfsOptions};
-use fuse_backend_rs::passthrough::{Config, PassthroughFs};
+use fuse_backend_rs::passthrough::{CachePolicy, Config, PassthroughFs};
 use fuse_backend_rs::transport::{FuseBuf, FuseDevWriter, Reader};
 use std::io::{BufRead, Read, Seek, SeekFrom, Write};
 use std::os::unix::io::{AsRawFd, FromRawFd};
@@ -53,6 +53,7 @@ fn pt_config(kv: &[(String, String)], root: &str, do_import: bool) -> Config {
         writeback: flag(kv, "writeback"),
         killpriv_v2: flag(kv, "killpriv_v2"),
         xattr: flag(kv, "xattr"),
+        cache_policy: if flag(kv, "cache_always") { CachePolicy::Always } else { Default::default() },
         ..Default::default()
     }
 }
